@@ -197,6 +197,12 @@ func (b *builder) extend(t *rapid.T, chunks int) {
 // GenPattern draws one well-formed pattern.
 func GenPattern(t *rapid.T, cfg Cfg) string {
 	b := newBuilder(cfg)
+	if rapid.IntRange(0, 19).Draw(t, "leadParam") == 0 {
+		// no leading literal at all: the pattern opens with a parameter (what every wildcard domain does)
+		b.addParam(t)
+		b.extend(t, rapid.IntRange(1, 3).Draw(t, "chunksP"))
+		return b.sb.String()
+	}
 	if rapid.IntRange(0, 9).Draw(t, "lead") < 8 {
 		b.sb.WriteString("/")
 		if rapid.Bool().Draw(t, "leadMore") {
@@ -225,8 +231,31 @@ func GenPool(t *rapid.T, cfg Cfg, n int) []string {
 		pool = append(pool, s)
 	}
 	for tries := 0; len(pool) < n && tries < 4*n+8; tries++ {
-		mode := rapid.IntRange(0, 10).Draw(t, "poolMode")
+		mode := rapid.IntRange(0, 11).Draw(t, "poolMode")
 		switch {
+		case mode == 11 && len(pool) > 0:
+			// a burst of parameter siblings: five to seven different parameters continue the same prefix, each
+			// with a tail of its own - a node with many children of which none (or hardly any) is literal
+			base := MustParse(rapid.SampledFrom(pool).Draw(t, "pbase"), cfg.Icpt)
+			cut := runeCut(base, rapid.IntRange(1, len(base.Atoms)).Draw(t, "pcut"))
+			if rapid.Bool().Draw(t, "pburstRoot") {
+				base, cut = MustParse("/", cfg.Icpt), 1
+			}
+			tails := []string{"", "/", "/a", ".html", "-", "/b", ".x"}
+			off := rapid.IntRange(0, len(tails)-1).Draw(t, "ptailOff")
+			for j, k := 0, rapid.IntRange(5, 7).Draw(t, "pburstK"); j < k; j++ {
+				b := newBuilder(cfg)
+				b.seed(base, cut)
+				if !b.canParam() {
+					break
+				}
+				b.addParam(t)
+				if tail := tails[(off+j)%len(tails)]; tail != "" && b.litOK(tail) {
+					b.sb.WriteString(tail)
+					b.lastParam = nil
+				}
+				add(b.sb.String())
+			}
 		case mode == 10 && len(pool) > 0:
 			// competing kinds at one position: the same prefix continued by a named, a regexp and
 			// (when the router has interceptors) an interceptor parameter, with equal or different tails
